@@ -2,6 +2,7 @@
   C05 — every hold is released exactly once, in its own mode, by its holder.
 -/
 import HLV.Props.HoldFamily
+import HLV.Props.C01
 namespace HLV
 
 -- @theorem C05_release_only_what_is_held : on every execution of every well-typed program (any answers, ≤ n faults) each release names a lock the thread holds at that moment in exactly that mode
@@ -37,5 +38,32 @@ theorem C05_collection_release_releases_all_members (n : Nat) (ro : RankOpt) (W 
       (fun _ g' => g'.held = g.held.minus (shapeFp W S m)) (fun _ g' => g'.held = g.held.minus (shapeFp W S m)) g := by
   apply (toRaw_isLock (n := n) (ro := ro) W S hl hk).rel m g _ _ hc rfl
   intro g' a _ _; exact a
+
+-- @theorem C05_when_all_threads_are_done_every_lock_is_free : in every reachable state of any N-thread system of well-typed programs (any lockable collections, either policy, any interleaving), once every thread has finished, every lock of the table is free: no writer, no readers
+theorem C05_when_all_threads_are_done_every_lock_is_free (pol : Policy) (N : Nat) (C : Ctx)
+    (progs : Tid → List Stmt) (hok : ∀ t, ProgOK none C (progs t))
+    (hidle : ∀ t, N ≤ t → progs t = []) (s : Sys) (hr : Reachable pol (initSys C progs) s)
+    (hdone : ∀ t, s.finished t) (x : LockId) :
+    (s.env.locks x).writer = none ∧ (s.env.locks x).readers = [] := by
+  obtain ⟨H, hi⟩ := reachable_inv pol (initSys_inv none N C progs hok hidle) hr
+  have hempty : ∀ t, (H t).held = Held.empty := by
+    intro t
+    have := hi.code t
+    rw [show s.thr t = .done () from hdone t] at this
+    exact this
+  constructor
+  · cases hw : (s.env.locks x).writer with
+    | none => rfl
+    | some t =>
+      have := hi.excl x t
+      rw [hempty t, hw] at this
+      simp [Held.empty] at this
+  · apply List.eq_nil_iff_forall_not_mem.2
+    intro t ht
+    have := hi.shared x t
+    rw [hempty t] at this
+    have hpos : 0 < (s.env.locks x).readers.count t := List.count_pos_iff.2 ht
+    simp [Held.empty] at this
+    omega
 
 end HLV
